@@ -152,17 +152,22 @@ def c11(tier, seed):
     # two processing calls that overlap without nesting (the one that began first ends first) while somebody asks (seed S51)
     sc += ["nq,nq,po,eq|po", "nq,pa,eq|nq,pa", "nq,nq,po,wf|po"]
     sc3 += ["nq,nq|po,eq|po", "nq,nq,nq|po|pi,eq"]
+    # DisableQueueNotify objects of two threads coming and going, then an event and a waitFor that must see it: the counter must count the objects (seed S111)
+    sc += ["don,dof|don,dof,nq,wf", "don,dof,nq,wf|don,dof"]
+    sc3 += ["don,dof|don,dof|nq,wf"]
     scen = [{"scenario": s, "bound": 3} for s in sc] + [{"scenario": s, "bound": 2, "max": 6000 if quick else 150000} for s in sc3]
     scen += cq_generated("C11", tier, seed, set(x["scenario"] for x in scen))
     models = [{"module": "ConcQueueMC", "tag": "2threads", "cfg": mc_cfg([1, 2], "Scen2")},
-              {"module": "ConcQueueMC", "tag": "waitfor-2threads", "cfg": mc_cfg([1, 2], "WF2")}]
+              {"module": "ConcQueueMC", "tag": "waitfor-2threads", "cfg": mc_cfg([1, 2], "WF2")},
+              {"module": "ConcQueueMC", "tag": "two-dqn-waitfor", "cfg": mc_cfg([1, 2], "STwoDqn")}]
     if not quick:
         models.append({"module": "ConcQueueMC", "tag": "3threads", "cfg": mc_cfg([1, 2, 3], "Scen3"), "heap": "16g"})
         models.append({"module": "ConcQueueMC", "tag": "waitfor-3threads", "cfg": mc_cfg([1, 2, 3], "WF3"), "heap": "16g"})
     stress_sc = [{"scenario": s} for s in ["nq,pa|eq,eq", "nq,nq,po,po|eq,eq", "nq|pa|eq", "nq,tk|eq"]]
     return {"models": models, "runner": RUNNER_CQ, "trace_module": "TraceCQ", "scenarios": scen, "corpus": [CORPUS_EO], "extra_runners": [RUNNER_HQ],
             "model_defects": [{"module": "ConcQueueMC", "cfg": mc_cfg([1, 2], "SOverlap", defects=["guard_restore"]), "defect": "guard_restore"},
-                              {"module": "ConcQueueMC", "cfg": mc_cfg([1, 2], "SLastOnly", defects=["guard_if_last"]), "defect": "guard_if_last"}],
+                              {"module": "ConcQueueMC", "cfg": mc_cfg([1, 2], "SLastOnly", defects=["guard_if_last"]), "defect": "guard_if_last"},
+                              {"module": "ConcQueueMC", "cfg": mc_cfg([1, 2], "STwoDqn", defects=["dqn_dec_split"]), "defect": "dqn_dec_split"}],
             "stress_runners": STRESS_CQ, "stress_scenarios": stress_sc,
             "rule": "ConcQueue.tla with emptyQueue as two reads and the history variable 'enqueues finished before the call began' (events held by a selective call are "
                     "outside the promise); scenarios = regression list + seeded sample of ConcQueueMC's sets, on EventQueue and HeterEventQueue; observer scenarios "
@@ -191,10 +196,11 @@ STRESS_CC = [{"source": "cc_stress.cpp", "name": "cc_stress_list_mutex", "define
              {"source": "lock_stress.cpp", "name": "lock_stress_mutex", "defines": ["W_MUTEX=0"], "trace_module": "TraceLock", "own_scenarios": True}]
 
 
-def cc_cfg(threads, scen, defects=(), initlen=2, maxnodes=6):
-    return ("INIT Init\nNEXT Next\nCONSTANTS Threads = {%s}\n Scenarios <- %s\n InitLen = %d\n MaxNodes = %d\n Defects = %s\n"
-            "INVARIANT Linearizable\nINVARIANT RefinesList\nINVARIANT NoLeakAtEnd\nINVARIANT NoDeadlock\nCHECK_DEADLOCK FALSE\n"
-            % (", ".join(map(str, threads)), scen, initlen, maxnodes, tla_value(set(defects))))
+def cc_cfg(threads, scen, defects=(), initlen=2, maxnodes=6, initcurs=(2, 10, 11, 12)):
+    # generations live in 0..12: starting at 2 no scenario reaches the wrap, starting at 10, 11, 12 it happens at the third, second, first addition
+    return ("INIT Init\nNEXT Next\nCONSTANTS Threads = {%s}\n Scenarios <- %s\n InitLen = %d\n MaxNodes = %d\n Defects = %s\n MaxGen = 12\n InitCurs = {%s}\n"
+            "INVARIANT Linearizable\nINVARIANT RefinesList\nINVARIANT NoLeakAtEnd\nINVARIANT NoDeadlock\nINVARIANT Reachable\nCHECK_DEADLOCK FALSE\n"
+            % (", ".join(map(str, threads)), scen, initlen, maxnodes, tla_value(set(defects)), ", ".join(map(str, initcurs))))
 
 
 def sl_cfg(threads, rounds, defects=()):
@@ -251,6 +257,10 @@ def c03(tier, seed):
     # several additions racing each other and a traversal afterwards: the generation counter is drawn before the mutex is taken (seed S92)
     for s in ["2:a|a|a", "0:a|a,a,v", "2:p|a,a|v", "1:a,v|a,a"]:
         scen.append({"scenario": s, "bound": 2 if s.count("|") == 1 else 1, "max": 4000 if quick else 100000})
+    # the generation counter wraps while other threads add and traverse (the counter is placed d additions before the wrap by the hook; plain
+    # CallbackList only): a traversal must never see the wrap half done, an addition must never carry a generation drawn before it (D11)
+    for s in ["2w0:a|v", "2w1:a|a,v", "2w0:i1,v|r1,a", "1w0:p|f,a", "2w1:a,v|p,v", "2w0:a|a|v", "2w1:a|a|v", "2w1:a,r10|i2|f"]:
+        scen.append({"scenario": s, "bound": 3 if s.count("|") == 1 else 2, "max": 5000 if quick else 100000, "runner": 0, "primary_only": True})
     scen += cc_generated(tier, seed, set(x["scenario"] for x in scen))
     # heterogeneous list / dispatcher only: first use of a prototype slot (and of an event) by several threads at once
     for s in ["0:a|a", "0:a,v|a,v", "0:a|v,e", "0:p|a,r20", "0:a|f", "0:a,r10|a|v", "0:i1|a|p", "1:a|r1,a"]:
@@ -273,7 +283,7 @@ def c03(tier, seed):
     return {"models": models, "runners": RUNNERS_CC, "extra_runners": RUNNERS_HC, "extra_every": 3, "trace_module": "TraceCC", "scenarios": scen,
             "stress_runners": STRESS_CC, "stress_scenarios": stress_sc,
             "inductive": [{"module": "SpinLockInd", "steps": [("IndInit", "IndInv", 0), ("IndInv", "IndInv", 1), ("IndInv", "MutualExclusion", 0)]}],
-            "corpus": [], "model_defects": [{"module": "SpinLock", "cfg": sl_cfg([1, 2, 3], 2, defects=["cas_stale"]), "defect": "cas_stale"},
+            "corpus": [], "model_defects": [{"module": "ConcCLMC", "cfg": cc_cfg([1, 2], "ScenSet", defects=["draw_unlocked"]), "defect": "draw_unlocked"}, {"module": "SpinLock", "cfg": sl_cfg([1, 2, 3], 2, defects=["cas_stale"]), "defect": "cas_stale"},
                               {"module": "LazySlotMC", "cfg": lazy_cfg([1, 2], defects=["no_recheck"]), "defect": "no_recheck"},
                               {"module": "ConcDispMC", "cfg": disp_cfg([1, 2], defects=["erase_empty"]), "defect": "erase_empty"},
                               {"module": "ConcDispMC", "cfg": disp_cfg([1, 2], defects=["lookup_unlocked"]), "defect": "lookup_unlocked"}],
